@@ -22,7 +22,7 @@ CHECKS = {
 CHECKS.update({
     "C04": dict(
         category="model_checking", design_ref="DESIGN.md section 5 C04, 3.4 (Scope / ScopeImpl), 3.3 (TokStream)",
-        technique="TLC-enumerated declaration histories of a TLA+ scope machine (Scope.tla) replayed as probe programs; hook traces validated against ParserTrace.tla",
+        technique="TLC-enumerated declaration histories of a TLA+ scope machine (Scope.tla) replayed as probe programs in canonical and alternative spellings; lexer/parser protocol model ScopeImpl.tla; hook traces validated against ParserTrace.tla",
         text="TLC enumerates every history of declarations of 2 names over file/function/block scopes (spec/Scope.tla = C99 "
              "6.2.1/6.2.3, with pycparser's mechanism carried alongside as named deviations and the refinement between the "
              "two model-checked); every history ends in a probe whose class the standard fixes and is replayed through "
@@ -64,7 +64,7 @@ CHECKS.update({
         note="trusted: TLC, CGram.tla as a reading of Annex A (cross-checked with gcc on a sample every run)"),
     "C06": dict(
         category="model_checking", design_ref="DESIGN.md section 5 C06, 3.9 (Session.ParseEnd), TokSeq",
-        technique="TLC-enumerated token sequences (TokSeq.tla) in 6 contexts replayed into CParser.parse, outcome checked against the two ParseEnd shapes; sampled hook traces validated against ParserTrace.tla (SingleErrorChannel)",
+        technique="TLC-enumerated token sequences (TokSeq.tla) in 6 context prefixes and inside 12 constructs replayed into CParser.parse, outcome checked against the two ParseEnd shapes; sampled hook traces validated against ParserTrace.tla (SingleErrorChannel)",
         text="Every token sequence up to length 2 over the full 120-token alphabet, up to 3 over a 58-token core and up to 4 over "
              "16 tokens (quick; one more token each in thorough), in six context prefixes, plus raw character noise, is parsed; "
              "the outcome must be a FileAST or a ParseError whose message starts 'file:line:col: ' (a real token start) or "
@@ -73,7 +73,7 @@ CHECKS.update({
         note="trusted: TLC, the outcome classifier harness/outcome.py; RecursionError tolerated as the property states"),
     "C07": dict(
         category="model_checking", design_ref="DESIGN.md section 5 C07, 3.6 (FrontTrace), 3.8 (CGen)",
-        technique="round trip of TLC-derived programs (CGram.tla, CExpr.tla) and the corpus; the generated tokens are validated against the first AST by the AST-guided TLA+ matcher (FrontTrace.tla)",
+        technique="round trip of TLC-derived programs (CGram.tla, CExpr.tla) and the corpus; the generated tokens are validated against the first AST by the AST-guided TLA+ matcher (FrontTrace.tla); generator indentation events validated against GenTrace.tla",
         text="Each program derived by TLC from the grammar machines and each corpus file is parsed, generated (both "
              "reduce_parentheses settings), re-parsed and re-generated: trees must be equal and the second text identical. "
              "Independently of the parser's grouping, the token sequence of the generated text must be accepted by "
@@ -116,7 +116,7 @@ CHECKS.update({
 CHECKS.update({
     "C12": dict(
         category="model_checking", design_ref="DESIGN.md section 5 C12, 3.9 (Session)",
-        technique="Session.tla (ParseBegin resets every component; reset necessity shown by TLC) with TLC-enumerated call histories replayed on one CParser instance; per-call hook traces validated against ParserTrace.tla (FreshStart)",
+        technique="Session.tla (ParseBegin resets every component; reset necessity shown by TLC) with TLC-enumerated call histories replayed on one CParser instance; per-call hook traces validated against ParserTrace.tla (FreshStart); reused CGenerator event traces validated against GenTrace.tla (ReuseFresh)",
         text="TLC checks HistoryIndependence on spec/Session.tla and, as a vacuity guard, that dropping the reset of any "
              "component violates it; it enumerates every call history up to 3 (quick) / 4 (thorough) calls over a palette of 14 "
              "programs that dirty each component. Every history is replayed on one instance and compared call by call with "
@@ -154,7 +154,7 @@ CHECKS.update({
         note="the byte-level codecs are exercised by the harness; the model decides aliasing and equality"),
     "C16": dict(
         category="exploration", design_ref="DESIGN.md section 5 C16, 3.5 (Families), 3.3 (TokStream)",
-        technique="pump cycles of the grammar enumerated by TLC (Families.tla), instantiated at doubling sizes and measured in Python call events; ReconsumptionBound of ParserTrace.tla on their traces",
+        technique="pump cycles and flat list families of the grammar enumerated by TLC (Families.tla), instantiated at doubling sizes and measured in Python call events; ReconsumptionBound of ParserTrace.tla on their traces",
         text="spec/Families.tla holds the self-embedding structure of the grammar as pumps; TLC enumerates every simple cycle up "
              "to length 2 (quick) / 3 (thorough); each family and 19 repetition/declarator families are parsed at doubling sizes "
              "and the number of Python call events inside pycparser must at most double (x2.6). Traces of family instances are "
